@@ -407,9 +407,9 @@ def _opt(name, *covers):
 for _n, _h in list(HARNESSES.items()):
     if _h["mod"] == "scen_fut" and (_n.startswith("c14_") or _n == "c15_bc_fresh_poll"):
         if _n == "c14_bc_drop_stream_repoll":
-            _opt(_n, "the task parked", "an operation ran at a preemption point")
+            _opt(_n, "the task parked", "an operation ran at a preemption point", "the sink task was polled again while the stream was being removed")
         else:
-            _opt(_n, "the sink task was polled again while the stream was being removed")
+            _opt(_n, "the sink task was polled again while the stream was being removed", "the parked sink task was notified by the removal")
     if _h["mod"] == "scen_wait":
         _opt(_n, "a waiter was legitimately left blocked")
         if not _n.endswith("_lap"):
